@@ -270,6 +270,7 @@ def E1() -> bool:
 def body_E2(ctx):
     outcome = ["pass", "fail", "error", "skip", "assertion-callback-error", "invalid-logging", "unflushed-traceback"][ctx.choose(7, "test outcome")]
     deco = [capture_logging, None][ctx.choose(2, "capture_logging / validate_logging")]
+    test_swaps = ctx.flag("the test installs another default logger and leaves it there")
     before = _output._DEFAULT_LOGGER
     seen = {}
 
@@ -282,12 +283,6 @@ def body_E2(ctx):
         seen["logger"] = logger
         seen["default_inside"] = _output._DEFAULT_LOGGER
         log_message("c14:x", k=1)
-        if outcome == "fail":
-            self.fail("no")
-        if outcome == "error":
-            raise RuntimeError("err")
-        if outcome == "skip":
-            raise unittest.SkipTest("skip")
         if outcome == "invalid-logging":
             MT.log(i="wrong")
         if outcome == "unflushed-traceback":
@@ -295,6 +290,14 @@ def body_E2(ctx):
                 raise ValueError("tb")
             except ValueError:
                 write_traceback(logger)
+        if test_swaps:
+            swap_logger(MemoryLogger())  # e.g. a test of logger-swapping code that fails before swapping back
+        if outcome == "fail":
+            self.fail("no")
+        if outcome == "error":
+            raise RuntimeError("err")
+        if outcome == "skip":
+            raise unittest.SkipTest("skip")
         return 5
 
     if deco is capture_logging:
@@ -311,7 +314,8 @@ def body_E2(ctx):
     except KeyboardInterrupt:
         pass
     after = _output._DEFAULT_LOGGER
-    ctx.check(after is before, "after a %s test with %s the default logger is %r, it was %r", outcome, "capture_logging" if deco else "validate_logging", after, before)
+    if deco is capture_logging or not test_swaps:
+        ctx.check(after is before, "after a %s test with %s (test swaps the logger itself: %r) the default logger is %r, it was %r", outcome, "capture_logging" if deco else "validate_logging", test_swaps, after, before)
     ctx.check(isinstance(seen.get("logger"), MemoryLogger), "the test did not receive a MemoryLogger")
     if deco is capture_logging:
         ctx.check(seen["default_inside"] is seen["logger"], "inside the test the default logger was not the captured one")
@@ -326,7 +330,7 @@ def body_E2(ctx):
         ctx.check(bad >= 1, "%s did not fail the test", outcome)
     elif outcome in ("fail", "error", "assertion-callback-error"):
         ctx.check(bad >= 1, "%s test reported nothing", outcome)
-    ctx.nontrivial((outcome, deco is capture_logging))
+    ctx.nontrivial((outcome, deco is capture_logging, test_swaps))
     ctx.sample({"outcome": outcome, "decorator": "capture_logging" if deco else "validate_logging", "errors": len(result.errors), "failures": len(result.failures), "skipped": len(result.skipped)})
     ctx.reached()
 
@@ -346,5 +350,5 @@ OBLIGATIONS = [
        timeout={"quick": 100, "thorough": 300}, twin=[{"twin_label": "deviation-nested"}],
        bounds={"quick": "3 logger histories (fresh / validated and reset / validated twice and reset) x 6 logging scenarios x 8 deviation kinds (incl. a non-encodable value nested inside a list/dict, non-UTF-8 bytes) (inapplicable ones skipped)"}),
     Ob("E2", E2, body_E2, "X", desc="capture_logging / validate_logging on real unittest.TestCase methods: default logger restored for 7 outcomes", functions=["capture_logging", "validate_logging", "swap_logger", "check_for_errors"],
-       timeout={"quick": 100, "thorough": 300}, bounds={"quick": "7 test outcomes (pass, fail, error, skip, error in the assertion callback, invalid logging, unflushed traceback) x 2 decorators"}),
+       timeout={"quick": 100, "thorough": 300}, bounds={"quick": "7 test outcomes (pass, fail, error, skip, error in the assertion callback, invalid logging, unflushed traceback) x 2 decorators x {test leaves the default logger alone, test installs another one and does not restore it}"}),
 ]
